@@ -114,7 +114,16 @@ func runChecks(repo, prop, tier, outDir, knownPath, explain, goarch string, star
 	a := NewAnalyzer(p)
 	res := NewResults()
 	for _, s := range sets {
+		t0 := time.Now()
 		ruleSets[s](a, res)
+		res.Stats["ms."+s] = int(time.Since(t0).Milliseconds())
+	}
+	if os.Getenv("LH_DEBUG_TIMES") != "" {
+		for k, v := range res.Stats {
+			if strings.HasPrefix(k, "ms.") {
+				fmt.Fprintf(os.Stderr, "%s=%d\n", k, v)
+			}
+		}
 	}
 	return report(a, res, prop, tier, outDir, knownPath, start)
 }
